@@ -767,6 +767,21 @@ fn check_placement(defs: &[(String, String)], body: &str, split: u32) -> Verdict
     // split bit i set: define i goes to the API list, else it is a #define line (in order) before the first line
     let mut api = Vec::new();
     let mut lines = String::new();
+    // API defines are applied before the file's own lines, so a placement is only comparable when it keeps the
+    // relative order of the defines of one name: a later define of a name stays a line when an earlier one is a line
+    let macro_name = |n: &str| n.split('(').next().unwrap_or(n).trim().to_string();
+    let mut split = split;
+    let mut repeated = false;
+    for j in 0..defs.len() {
+        for i in 0..j {
+            if macro_name(&defs[i].0) == macro_name(&defs[j].0) {
+                repeated = true;
+                if split & (1 << i) == 0 {
+                    split &= !(1 << j);
+                }
+            }
+        }
+    }
     for (i, (n, v)) in defs.iter().enumerate() {
         if split & (1 << i) != 0 {
             api.push((n.clone(), v.clone()));
@@ -785,10 +800,18 @@ fn check_placement(defs: &[(String, String)], body: &str, split: u32) -> Verdict
         Err(p) => return Verdict::fail(format!("panic:{}", p), format!("api defines {:?}\n{}", api, var_text)),
         Ok(r) => r,
     };
-    // API defines are applied before the file's own lines: only placements that keep the relative order of
-    // defines of the same name are comparable; names are distinct here
+    let repeated_in_api = repeated && (0..api.len()).any(|j| (0..j).any(|i| macro_name(&api[i].0) == macro_name(&api[j].0)));
     match (&base, &var) {
-        (Ok(a), Ok(b)) if a == b => Verdict::pass(if !api.is_empty() && api.len() < defs.len() { Some(hash_of(&(base_text, split))) } else { None }, vec!["placement_agrees".into()]),
+        (Ok(a), Ok(b)) if a == b => {
+            let mut labels = vec!["placement_agrees".to_string()];
+            if repeated_in_api {
+                labels.push("placement_name_repeated_in_api".into());
+            }
+            if api.iter().any(|(n, _)| n.contains('(')) {
+                labels.push("placement_function_like_in_api".into());
+            }
+            Verdict::pass(if !api.is_empty() && (api.len() < defs.len() || repeated_in_api) { Some(hash_of(&(base_text, split))) } else { None }, labels)
+        }
         (Err(_), Err(_)) => Verdict::pass(None, vec!["placement_both_rejected".into()]),
         _ => Verdict::fail(
             "define-placement:differs",
@@ -844,7 +867,7 @@ fn include_graph(ch: &[u16]) -> Vec<(String, String)> {
 }
 
 pub fn run(ctx: &mut Ctx) {
-    ctx.rule = "(1) Macro programs: 1-6 object- and function-like macros (0-3 parameters; bodies of 1-12 tokens over parameters, references to other macros and to themselves with and without argument lists, parenthesised groups, ## between parameters / identifiers / numbers), then up to 10 sites mixing invocations (nested invocations in arguments, parenthesised commas, function-like names without arguments, a line break inside the site) with redefinitions and #undef; the non-whitespace token sequence after rssl_preprocess::preprocess + prepare_tokens must equal the output of a reference expander with hide sets (Prosser's algorithm). Operands of ## are never macro names (the property's subset). (2) Include graphs of 2-5 header files (acyclic, repeated and diamond inclusion, with and without #pragma once, defining macros used later) must give the same tokens as the text with every include pasted in place. (3) 1-4 object-like defines x every split between API defines and #define lines before the first line give identical tokens. Non-trivial = a paste, an invocation nested in an argument or a stopped recursive reference; a file reached twice; a proper split. Distinct = hash of the input.".into();
+    ctx.rule = "(1) Macro programs: 1-6 object- and function-like macros (0-3 parameters; bodies of 1-12 tokens over parameters, references to other macros and to themselves with and without argument lists, parenthesised groups, ## between parameters / identifiers / numbers), then up to 10 sites mixing invocations (nested invocations in arguments, parenthesised commas, function-like names without arguments, a line break inside the site) with redefinitions and #undef; the non-whitespace token sequence after rssl_preprocess::preprocess + prepare_tokens must equal the output of a reference expander with hide sets (Prosser's algorithm). Operands of ## are never macro names (the property's subset). (2) Include graphs of 2-5 header files (acyclic, repeated and diamond inclusion, with and without #pragma once, defining macros used later) must give the same tokens as the text with every include pasted in place. (3) 1-6 object-like and function-like defines, names repeated (a later define of a name replaces the earlier one) x every order-preserving split between API defines and #define lines before the first line give identical tokens. Non-trivial = a paste, an invocation nested in an argument or a stopped recursive reference; a file reached twice; a proper split. Distinct = hash of the input.".into();
     ctx.assumptions.push("trusted: the reference expander in harness/src/c12.rs; text between two directives is expanded as one unit (an invocation may span lines), definitions take effect from their line onward".into());
     ctx.assumptions.push("# stringification and ## whose operand is a macro name are outside the property's subset and are not generated".into());
     if !ctx.replay_tier(&check_record) {
@@ -870,31 +893,35 @@ pub fn run(ctx: &mut Ctx) {
     ctx.run_prop(
         "define_placement",
         ctx.tier.pick(10_000, 200_000),
-        || (proptest::collection::vec((0usize..4, any::<u16>()), 1..5), any::<u32>(), proptest::collection::vec(any::<u16>(), 4..30)),
+        || (proptest::collection::vec((0usize..4, any::<u16>()), 1..7), any::<u32>(), proptest::collection::vec(any::<u16>(), 4..30)),
         |(defs, split, ch): &(Vec<(usize, u16)>, u32, Vec<u16>)| {
-            const VALS: &[&str] = &["1", "a + b", "( x )", "D1 D2", "", "7 *", "y , z", "D0"];
-            let mut names_used = Vec::new();
+            const VALS: &[&str] = &["1", "a + b", "( x )", "D1 D2", "", "7 *", "y , z", "D0", "2", "F0 ( 3 )", "D3 ( 4 )"];
+            const FVALS: &[&str] = &["p + 1", "p * p", "( p , D1 )", "", "D0 p", "9"];
+            // names may repeat: a later define of a name replaces the earlier one, as a later #define line does
             let mut d = Vec::new();
             for (i, v) in defs {
-                let n = format!("D{}", i);
-                if !names_used.contains(&n) {
-                    names_used.push(n.clone());
-                    d.push(json!([n, pick(VALS, *v)]));
+                if *v % 5 == 0 {
+                    d.push(json!([format!("F{}(p)", i % 2), pick(FVALS, v.wrapping_mul(31))]));
+                } else {
+                    d.push(json!([format!("D{}", i), pick(VALS, *v)]));
                 }
             }
             let mut body = String::new();
             let mut g = MacroGen { ch, pos: 0 };
             for _ in 0..(1 + g.pick(4)) {
                 body.push_str(&format!("D{} {} D{} ;\n", g.pick(4), ["+", "*", ";"][g.pick(3)], g.pick(4)));
+                if g.pick(2) == 0 {
+                    body.push_str(&format!("F{} ( D{} ) F1 ( 5 ) ;\n", g.pick(2), g.pick(4)));
+                }
             }
             if g.pick(3) == 0 {
                 body.push_str("#ifdef D1\nHAS_D1 ;\n#endif\n#if D0 == 1\nD0_IS_1 ;\n#endif\n");
             }
-            json!({"kind": "placement", "defs": d, "body": body, "split": split % 16})
+            json!({"kind": "placement", "defs": d, "body": body, "split": split % 64})
         },
         check_record,
     );
-    for l in ["macros_agree", "has_paste", "nested_invocation_in_argument", "recursive_reference_stopped", "includes_agree", "placement_agrees"] {
+    for l in ["macros_agree", "has_paste", "nested_invocation_in_argument", "recursive_reference_stopped", "includes_agree", "placement_agrees", "placement_name_repeated_in_api", "placement_function_like_in_api"] {
         ctx.require_label(l, 50);
     }
 }
